@@ -217,6 +217,7 @@ type Explorer struct {
 	// Wrap, if set, runs the body (e.g. inside a synctest bubble).
 	Wrap func(fn func())
 
+	lastStack string
 	visited map[string]int
 	ranked  map[string][][2]int
 	Stats   Stats
@@ -261,9 +262,13 @@ func (e *Explorer) exec(prefix []int, noPrune ...bool) (out outcome) {
 	return out
 }
 
+// LastStack returns the stack of the panic (if any) of the last Replay.
+func (e *Explorer) LastStack() string { return e.lastStack }
+
 // Replay runs exactly one execution from a choice list.
 func (e *Explorer) Replay(choices []int) (*Run, *Failure) {
 	o := e.exec(choices, true)
+	e.lastStack = o.stack
 	return o.run, o.fail
 }
 
